@@ -9,7 +9,7 @@
 size_t ghost_k, ghost_j;
 const uint8_t *ghost_pk, *ghost_pj;
 uint8_t ghost_vk, ghost_vj;
-#define BIT(x, i) (((x) >> (i)) & 1)
+
 /* ghost pointer g lies in the n-byte block starting at d */
 #define GHOST_INN(g, d, n) (__CPROVER_same_object((g), (d)) && __CPROVER_POINTER_OFFSET(g) >= __CPROVER_POINTER_OFFSET(d) && \
                           __CPROVER_POINTER_OFFSET(g) - __CPROVER_POINTER_OFFSET(d) < (n))
